@@ -397,4 +397,4 @@ var importProp = pbt.Prop[Plan]{ID: "C16", Name: "import-export", Gen: genPlan, 
 
 func TestProp_import_export(t *testing.T) { importProp.Check(t) }
 
-func TestReplay(t *testing.T) { pbt.Replay(t, importProp) }
+func TestReplay(t *testing.T) { pbt.Replay(t, importProp, sqlImportProp) }
